@@ -1,214 +1,11 @@
 package fsm
 
 import (
-	"bytes"
-
 	"github.com/canopy-network/canopy/lib"
 	"github.com/canopy-network/canopy/lib/crypto"
-	"github.com/cockroachdb/pebble/v2"
 )
 
-// ---------------------------------------------------------------------------------------------
-// The "small world" the FSM harnesses run in (DESIGN §3/§4): the real fsm.StateMachine on top of a
-// map-like store written in plain Go (so it is executed symbolically like everything else and
-// runs natively in replays). Keys are the real fsm.KeyFor* outputs; values are whatever the FSM
-// marshals (opaque boxes under the engine, protobuf bytes natively).
-// ---------------------------------------------------------------------------------------------
-
-type zzLogF struct{}
-
-func (zzLogF) Debug(string)          {}
-func (zzLogF) Info(string)           {}
-func (zzLogF) Warn(string)           {}
-func (zzLogF) Error(string)          {}
-func (zzLogF) Fatal(string)          {}
-func (zzLogF) Print(string)          {}
-func (zzLogF) Debugf(string, ...any) {}
-func (zzLogF) Infof(string, ...any)  {}
-func (zzLogF) Warnf(string, ...any)  {}
-func (zzLogF) Errorf(string, ...any) {}
-func (zzLogF) Fatalf(string, ...any) {}
-func (zzLogF) Printf(string, ...any) {}
-
-type zzKV struct{ k, v []byte }
-
-// zzStore: an unordered association list with copy-on-NewTxn semantics; iteration sorts on demand.
-type zzStore struct {
-	kv      []zzKV
-	parent  *zzStore
-	version uint64
-	txs     []*lib.TxResult // "indexer": transactions by hash
-	dsigs   []zzDS          // "indexer": double signers
-	ops     []string        // trace of store-level operations (Reset/Discard/Flush ...)
-}
-
-type zzDS struct {
-	addr   []byte
-	height uint64
-}
-
-func (s *zzStore) find(k []byte) int {
-	for i := range s.kv {
-		if bytes.Equal(s.kv[i].k, k) {
-			return i
-		}
-	}
-	return -1
-}
-
-func (s *zzStore) Get(k []byte) ([]byte, lib.ErrorI) {
-	if i := s.find(k); i >= 0 {
-		return s.kv[i].v, nil
-	}
-	return nil, nil
-}
-
-func (s *zzStore) Set(k, v []byte) lib.ErrorI {
-	if i := s.find(k); i >= 0 {
-		s.kv[i].v = v
-		return nil
-	}
-	s.kv = append(s.kv, zzKV{bytes.Clone(k), v})
-	return nil
-}
-
-func (s *zzStore) Delete(k []byte) lib.ErrorI {
-	if i := s.find(k); i >= 0 {
-		s.kv = append(s.kv[:i:i], s.kv[i+1:]...)
-	}
-	return nil
-}
-
-type zzIter struct {
-	items []zzKV
-	i     int
-}
-
-func (it *zzIter) Valid() bool   { return it.i < len(it.items) }
-func (it *zzIter) Next()         { it.i++ }
-func (it *zzIter) Key() []byte   { return it.items[it.i].k }
-func (it *zzIter) Value() []byte { return it.items[it.i].v }
-func (it *zzIter) Close()        {}
-
-func (s *zzStore) iter(prefix []byte, reverse bool) (lib.IteratorI, lib.ErrorI) {
-	var items []zzKV
-	for _, e := range s.kv {
-		if bytes.HasPrefix(e.k, prefix) {
-			items = append(items, e)
-		}
-	}
-	// insertion sort by key
-	for i := 1; i < len(items); i++ {
-		for j := i; j > 0; j-- {
-			c := bytes.Compare(items[j].k, items[j-1].k)
-			if (!reverse && c < 0) || (reverse && c > 0) {
-				items[j], items[j-1] = items[j-1], items[j]
-			} else {
-				break
-			}
-		}
-	}
-	return &zzIter{items: items}, nil
-}
-
-func (s *zzStore) Iterator(p []byte) (lib.IteratorI, lib.ErrorI)    { return s.iter(p, false) }
-func (s *zzStore) RevIterator(p []byte) (lib.IteratorI, lib.ErrorI) { return s.iter(p, true) }
-
-func (s *zzStore) NewTxn() lib.StoreI {
-	c := &zzStore{parent: s, version: s.version, txs: s.txs, dsigs: s.dsigs}
-	c.kv = append(c.kv, s.kv...)
-	s.ops = append(s.ops, "NewTxn")
-	return c
-}
-func (s *zzStore) Flush() lib.ErrorI {
-	if s.parent != nil {
-		s.parent.kv = append([]zzKV(nil), s.kv...)
-		s.parent.txs, s.parent.dsigs = s.txs, s.dsigs
-	}
-	s.ops = append(s.ops, "Flush")
-	return nil
-}
-func (s *zzStore) Discard() {
-	s.ops = append(s.ops, "Discard")
-	if s.parent != nil {
-		s.kv = append([]zzKV(nil), s.parent.kv...)
-		s.txs, s.dsigs = s.parent.txs, s.parent.dsigs
-	}
-}
-func (s *zzStore) Reset()                              { s.Discard(); s.ops = append(s.ops, "Reset") }
-func (s *zzStore) Root() ([]byte, lib.ErrorI)          { return nil, nil }
-func (s *zzStore) DB() *pebble.DB                      { return nil }
-func (s *zzStore) Version() uint64                     { return s.version }
-func (s *zzStore) Copy() (lib.StoreI, lib.ErrorI)      { return s.NewTxn(), nil }
-func (s *zzStore) Commit() ([]byte, lib.ErrorI)        { s.version++; return nil, nil }
-func (s *zzStore) Close() lib.ErrorI                   { return nil }
-func (s *zzStore) IncreaseVersion()                    { s.version++ }
-func (s *zzStore) NewReadOnly(uint64) (lib.StoreI, lib.ErrorI) { return s.NewTxn(), nil }
-func (s *zzStore) GetProof([]byte) ([]*lib.Node, lib.ErrorI)   { return nil, nil }
-func (s *zzStore) VerifyProof(k, v []byte, m bool, root []byte, p []*lib.Node) (bool, lib.ErrorI) {
-	return false, nil
-}
-
-// indexer (only what the FSM uses)
-func (s *zzStore) IndexQC(*lib.QuorumCertificate) lib.ErrorI { return nil }
-func (s *zzStore) IndexTx(r *lib.TxResult) lib.ErrorI        { s.txs = append(s.txs, r); return nil }
-func (s *zzStore) IndexBlock(*lib.BlockResult) lib.ErrorI    { return nil }
-func (s *zzStore) IndexDoubleSigner(a []byte, h uint64) lib.ErrorI {
-	s.dsigs = append(s.dsigs, zzDS{bytes.Clone(a), h})
-	return nil
-}
-func (s *zzStore) IndexCheckpoint(uint64, *lib.Checkpoint) lib.ErrorI { return nil }
-func (s *zzStore) DeleteTxsForHeight(uint64) lib.ErrorI               { return nil }
-func (s *zzStore) DeleteBlockForHeight(uint64) lib.ErrorI             { return nil }
-func (s *zzStore) DeleteQCForHeight(uint64) lib.ErrorI                { return nil }
-func (s *zzStore) DeleteCheckpointsForChain(uint64) lib.ErrorI        { return nil }
-func (s *zzStore) StateChangeKeys(uint64, []byte) ([][]byte, bool, lib.ErrorI) {
-	return nil, false, nil
-}
-func (s *zzStore) GetTxByHash(h []byte) (*lib.TxResult, lib.ErrorI) {
-	for _, r := range s.txs {
-		if r.TxHash == lib.BytesToString(h) {
-			return r, nil
-		}
-	}
-	return nil, nil
-}
-func (s *zzStore) GetTxsByHeight(uint64, bool, lib.PageParams) (*lib.Page, lib.ErrorI) { return nil, nil }
-func (s *zzStore) GetTxsBySender(crypto.AddressI, bool, lib.PageParams) (*lib.Page, lib.ErrorI) {
-	return nil, nil
-}
-func (s *zzStore) GetTxsByRecipient(crypto.AddressI, bool, lib.PageParams) (*lib.Page, lib.ErrorI) {
-	return nil, nil
-}
-func (s *zzStore) GetEventsByBlockHeight(uint64, bool, lib.PageParams) (*lib.Page, lib.ErrorI) {
-	return nil, nil
-}
-func (s *zzStore) GetEventsByAddress(crypto.AddressI, bool, lib.PageParams) (*lib.Page, lib.ErrorI) {
-	return nil, nil
-}
-func (s *zzStore) GetEventsByChainId(uint64, bool, lib.PageParams) (*lib.Page, lib.ErrorI) {
-	return nil, nil
-}
-func (s *zzStore) GetBlockByHash([]byte) (*lib.BlockResult, lib.ErrorI)        { return nil, nil }
-func (s *zzStore) GetBlockByHeight(uint64) (*lib.BlockResult, lib.ErrorI)      { return nil, nil }
-func (s *zzStore) GetBlockHeaderByHeight(uint64) (*lib.BlockResult, lib.ErrorI) { return nil, nil }
-func (s *zzStore) GetBlocks(lib.PageParams) (*lib.Page, lib.ErrorI)            { return nil, nil }
-func (s *zzStore) GetQCByHeight(uint64) (*lib.QuorumCertificate, lib.ErrorI)   { return nil, nil }
-func (s *zzStore) GetDoubleSigners() ([]*lib.DoubleSigner, lib.ErrorI)         { return nil, nil }
-func (s *zzStore) GetDoubleSignersAsOf(uint64) ([]*lib.DoubleSigner, lib.ErrorI) { return nil, nil }
-func (s *zzStore) IsValidDoubleSigner(a []byte, h uint64) (bool, lib.ErrorI) {
-	for _, d := range s.dsigs {
-		if d.height == h && bytes.Equal(d.addr, a) {
-			return false, nil
-		}
-	}
-	return true, nil
-}
-func (s *zzStore) GetCheckpoint(uint64, uint64) (lib.HexBytes, lib.ErrorI)          { return nil, nil }
-func (s *zzStore) GetMostRecentCheckpoint(uint64) (*lib.Checkpoint, lib.ErrorI)     { return nil, nil }
-func (s *zzStore) GetAllCheckpoints(uint64) ([]*lib.Checkpoint, lib.ErrorI)         { return nil, nil }
-
-var _ lib.StoreI = &zzStore{}
+// The "small world" the FSM harnesses run in (DESIGN §4): the real fsm.StateMachine on top of zzStore.
 
 // zzAddr: the i-th concrete 20-byte address of the world.
 func zzAddr(i int) []byte {
